@@ -78,10 +78,11 @@ type event struct {
 	Explicit int    `json:"explicit,omitempty"` // hs: ordinal of the session named by SessionID (0 = none, 99 = unknown id)
 	Via      string `json:"via,omitempty"`      // peername | stream | both
 	Dt       int    `json:"dt,omitempty"`
-	K        int    `json:"n,omitempty"`     // ordinal of a session (inval, lne); 99 = an id never issued
-	Valid    int    `json:"valid,omitempty"` // announce: index into validCatalogue
-	Mint     bool   `json:"mint,omitempty"`  // import: claim number Claim is minted into the client cache by MintClaimSession (Tag, PeerAddr, ExtraValidCommands)
-	Claim    int    `json:"claim,omitempty"` // import: number of the claim (1, 2) imported through ImportClaimSession; 0 = Store + MapCommand of ordinal K
+	K        int    `json:"n,omitempty"`       // ordinal of a session (inval, lne); 99 = an id never issued
+	AuthCmd  int    `json:"authcmd,omitempty"` // hs: SecurityConfig.AuthCommand (the DC_SEC_QUERY shape: Command asks about AuthCommand)
+	Valid    int    `json:"valid,omitempty"`   // announce: index into validCatalogue
+	Mint     bool   `json:"mint,omitempty"`    // import: claim number Claim is minted into the client cache by MintClaimSession (Tag, PeerAddr, ExtraValidCommands)
+	Claim    int    `json:"claim,omitempty"`   // import: number of the claim (1, 2) imported through ImportClaimSession; 0 = Store + MapCommand of ordinal K
 }
 
 type history struct {
@@ -375,6 +376,7 @@ func clientConfig(w *world, e event) *security.SecurityConfig {
 		Encryption:     security.SecurityPreferred,
 		Integrity:      security.SecurityOptional,
 		Command:        e.Cmd,
+		AuthCommand:    e.AuthCmd,
 		SecurityTag:    e.Tag,
 		SessionCache:   w.cache,
 	}
@@ -1206,6 +1208,9 @@ func randEvent(c *core.Ctx, pos int, prev []event) event {
 				e.Cmd = cmds[r.Intn(3)]
 			}
 		}
+		if r.Intn(6) == 0 { // a sub-command: equal to / different from Command, with or without a cached session
+			e.AuthCmd = cmds[r.Intn(3)]
+		}
 		switch r.Intn(12) {
 		case 0:
 			e.Mode = "d1"
@@ -1358,6 +1363,11 @@ func gen(c *core.Ctx) error {
 		{H("tagA", 0, 421), {Kind: "tick", Dt: 3000}, {Kind: "lne", K: 1}, {Kind: "invalexp"}, {Kind: "import", K: 1, Tag: "tagB", Addr: 1, Cmd: 9}, H("tagA", 0, 421), H("tagB", 1, 9), H("tagA", 0, 60007)},
 		{H("", 0, 421), {Kind: "tick", Dt: 3000}, {Kind: "hs", Tag: "tagB", Addr: 1, Cmd: 9, Mode: "ok", Via: "peername", Explicit: 1}, {Kind: "invalexp"}, {Kind: "import", K: 1, Tag: "tagA", Addr: 0, Cmd: 60007}, H("", 0, 421), H("", 0, 60007), H("tagA", 0, 60007)},
 		{H("tagA", 0, 421), H("tagB", 1, 60007), {Kind: "tick", Dt: 3000}, {Kind: "lne", K: 1}, {Kind: "invalexp"}, {Kind: "invalexp"}, {Kind: "import", K: 1, Tag: "", Addr: 0, Cmd: 421}, H("tagA", 0, 60007), H("", 0, 421)},
+		// handshakes carrying a sub-command (AuthCommand): the cached session is looked up by Command, never by AuthCommand
+		{H("tagA", 0, 421), {Kind: "hs", Tag: "tagA", Addr: 0, Cmd: 9, AuthCmd: 421, Mode: "ok", Via: "peername"}, {Kind: "hs", Tag: "tagA", Addr: 0, Cmd: 421, AuthCmd: 9, Mode: "ok", Via: "peername"},
+			{Kind: "hs", Tag: "tagA", Addr: 0, Cmd: 421, AuthCmd: 421, Mode: "ok", Via: "peername"}, H("tagA", 0, 9)},
+		{H("", 1, 60007), {Kind: "hs", Tag: "", Addr: 1, Cmd: 421, AuthCmd: 60007, Mode: "ok", Via: "stream"}, {Kind: "hs", Tag: "", Addr: 1, Cmd: 9, AuthCmd: 60007, Mode: "d2", Via: "peername"}, H("", 1, 60007)},
+		{H("tagB", 0, 9), {Kind: "hs", Tag: "tagB", Addr: 0, Cmd: 60007, AuthCmd: 421, Mode: "ok", Via: "peername"}, {Kind: "hs", Tag: "tagB", Addr: 0, Cmd: 0, AuthCmd: 421, Mode: "ok", Via: "peername"}},
 		// a server announces the id of an imported claim session (a record that is not a client-side one, other key)
 		{{Kind: "import", Claim: 1, Tag: "tagA", Addr: 0, Cmd: 421}, {Kind: "announce", K: 1, Tag: "tagB", Addr: 1, Valid: 10}, H("tagB", 1, 421), H("tagB", 1, 60007), H("tagA", 0, 421)},
 		{{Kind: "import", Claim: 1, Mint: true, Tag: "", Addr: 0, Cmd: 9}, {Kind: "announce", K: 1, Tag: "", Addr: 0, Valid: 10}, H("", 0, 421), H("", 0, 9), {Kind: "tick", Dt: 3000}, {Kind: "announce", K: 1, Tag: "tagA", Addr: 1, Valid: 10}, H("tagA", 1, 421)},
